@@ -236,6 +236,9 @@ func returnsOf(fn *ssa.Function) []*ssa.Return {
 		if len(b.Instrs) == 0 {
 			continue
 		}
+		if b.Index != 0 && len(b.Preds) == 0 {
+			continue // the recover block of a function with defers: not on any normal path
+		}
 		if r, ok := b.Instrs[len(b.Instrs)-1].(*ssa.Return); ok {
 			out = append(out, r)
 		}
